@@ -26,6 +26,21 @@ type Env struct {
 	// the listed properties do not pin down, e.g. the sign of a zero divisor
 	// that is not a numeric literal; such cases are discarded, not judged.
 	Unpinned string
+	// Obs records facts about the last evaluations, for non-triviality rules.
+	Obs Obs
+}
+
+// Obs are observations the evaluator makes while it works.
+type Obs struct {
+	PredCtxNodes    int  // most context nodes seen by a predicate-bearing step
+	PredCandidates  int  // longest candidate list a predicate was applied to
+	ReversePred     bool // a predicate was applied on a reverse axis (with >= 2 candidates)
+	NonIntegralPred bool // a numeric predicate value was NaN or not an integer
+	FilterPred      bool // a predicate was applied to a filter expression (>= 2 nodes)
+	FilterContinued bool // a path continued after a filter expression
+	DupCandidates   bool // two context nodes of a step reached the same node
+	ReverseThenStep bool // a step was applied to the result of a reverse-axis step
+	UnionOverlap    bool // union operands had a node in common
 }
 
 type Ctx struct {
@@ -123,7 +138,12 @@ func (e *Env) Eval(x *xast.Expr, c Ctx) (Value, error) {
 			return Value{}, errf("union of non-node-sets")
 		}
 		ns := append(append([]*xmodel.Node{}, l.Nodes...), r.Nodes...)
-		return NodeSet(Sort(ns)), nil
+		before := len(ns)
+		ns = Sort(ns)
+		if len(ns) < before {
+			e.Obs.UnionOverlap = true
+		}
+		return NodeSet(ns), nil
 	case "num":
 		return Number(StringToNumber(x.S)), nil
 	case "str":
@@ -258,10 +278,16 @@ func (e *Env) path(x *xast.Expr, c Ctx) (Value, error) {
 		cur = v.Nodes
 		for _, p := range x.BP {
 			var err error
+			if len(cur) >= 2 {
+				e.Obs.FilterPred = true
+			}
 			cur, err = e.filter(cur, p, false)
 			if err != nil {
 				return Value{}, err
 			}
+		}
+		if len(x.Steps) > 0 {
+			e.Obs.FilterContinued = true
 		}
 	case x.Abs:
 		cur = []*xmodel.Node{e.Doc.Root}
@@ -293,6 +319,12 @@ func (e *Env) path(x *xast.Expr, c Ctx) (Value, error) {
 			return v, nil
 		}
 		var next []*xmodel.Node
+		if len(s.Preds) > 0 && len(cur) > e.Obs.PredCtxNodes {
+			e.Obs.PredCtxNodes = len(cur)
+		}
+		if i > 0 && xast.IsReverse(x.Steps[i-1].Axis) && len(cur) >= 2 {
+			e.Obs.ReverseThenStep = true
+		}
 		for _, n := range cur {
 			sel, err := e.step(s, n)
 			if err != nil {
@@ -300,7 +332,11 @@ func (e *Env) path(x *xast.Expr, c Ctx) (Value, error) {
 			}
 			next = append(next, sel...)
 		}
+		before := len(next)
 		cur = Sort(next)
+		if len(cur) < before {
+			e.Obs.DupCandidates = true
+		}
 	}
 	return NodeSet(cur), nil
 }
@@ -322,6 +358,12 @@ func (e *Env) step(s *xast.Step, n *xmodel.Node) ([]*xmodel.Node, error) {
 	rev := xast.IsReverse(s.Axis)
 	for _, p := range s.Preds {
 		var err error
+		if len(sel) > e.Obs.PredCandidates {
+			e.Obs.PredCandidates = len(sel)
+		}
+		if rev && len(sel) >= 2 {
+			e.Obs.ReversePred = true
+		}
 		sel, err = e.filter(sel, p, rev)
 		if err != nil {
 			return nil, err
@@ -346,6 +388,9 @@ func (e *Env) filter(ns []*xmodel.Node, p *xast.Expr, rev bool) ([]*xmodel.Node,
 		}
 		keep := false
 		if v.T == TNumber {
+			if v.N != math.Trunc(v.N) || math.IsNaN(v.N) {
+				e.Obs.NonIntegralPred = true
+			}
 			keep = v.N == float64(pos)
 		} else {
 			keep = v.ToBool()
